@@ -186,8 +186,9 @@ pub fn run(seed: u64, thorough: bool, lite: bool) {
             let blob = set_counter(&sk, *c);
             let msg = &msgs[(i + shape.levels.len()) % msgs.len()];
             if let Some(sig) = emit_sign(&shape, &blob, msg, true) {
-                let tall = shape.heights().iter().any(|h| *h > 5);
-                let v = if tall { verify3(shape.hash, msg, &sig, &pk) } else { emit_verify_kf(shape.hash, msg, &sig, &pk, shape.sign_cost() / 20.0, "valid", kf_of(&shape)) };
+                // verification is cheap at every height: the model and the RFC transcription judge the
+                // signatures of the tall trees too (leaf indices >= 256, paths of 10 and 15 nodes)
+                let v = emit_verify_kf(shape.hash, msg, &sig, &pk, shape.verify_cost(), "valid", kf_of(&shape));
                 let ok = v.iter().all(|x| *x == Out::Ok(()));
                 Line::new("oracle").str("name", "verify_after_sign").raw("ok", if ok { "true" } else { "false" })
                     .str("hash", shape.hash).raw("variants", &shape.variants_json()).str("c", &c.to_string())
